@@ -163,6 +163,11 @@ def scan_imports(root, out_pkg, core_pkg):
                     if top in STDLIB or top in RUNTIME_DEPS:
                         continue
                     if (t + ".").startswith(out_pkg + ".") or (t + ".").startswith(core_pkg + "."):
+                        # a module of the package / core: it must have been emitted (a verbatim-copied runtime file may refer to a
+                        # sibling that only exists inside the generator)
+                        base = os.path.join(root, *t.split("."))
+                        if not (os.path.exists(base + ".py") or os.path.exists(os.path.join(base, "__init__.py"))):
+                            bad.append((rel, t, "imports a module of the package/core that was not emitted"))
                         continue
                     if (out_pkg + ".").startswith(t + ".") or (core_pkg + ".").startswith(t + "."):
                         continue  # an ancestor package of the client / core
